@@ -27,11 +27,19 @@ TraceInit == /\ tid \in 1..NTraces /\ l = 1 /\ phase = "new"
              /\ pers = {b \in DOMAIN Traces[tid].hdr.blocks : Traces[tid].hdr.blocks[b].persistent}
              /\ startOk = FALSE /\ now = 0 /\ failed = {} /\ hist = <<>>
 Rec(st, t) == [store |-> st, ts |-> t]
-InitLine(e) == /\ phase = "new" /\ phase' = "running" /\ startOk' = TRUE
+(* the output that corresponds to an internal state *)
+OutOf(kind, s) == CASE kind = "timer" -> (IF s.st = 2 THEN 1 ELSE 0)
+                    [] kind = "inputexp" -> (IF s.st = 2 THEN s.sd ELSE 99)
+                    [] kind = "td" -> (IF s.st \in {1, 3, 4} THEN 1 ELSE 0)   \* menu of configurations, see the driver
+                    [] kind = "ts" -> (IF s.st \in {2, 4} THEN 1 ELSE 0)
+                    [] OTHER -> s.st
+(* what get_state() reports is the state the block is really in: its output is the one of that state *)
+Faithful(e) == \A b \in B : (e.live[b].st # -9 /\ b \notin failed) => e.outc[b] = OutOf(H(tid).blocks[b].kind, e.live[b])
+InitLine(e) == /\ phase = "new" /\ phase' = "running" /\ startOk' = TRUE /\ Faithful(e)
                /\ \A b \in B : e.store[b] = (IF b \in pers THEN e.live[b] ELSE store[b])  \* saved after initialisation
                /\ store' = e.store /\ live' = e.live /\ hist' = Append(hist, Rec(e.store, ts))
                /\ UNCHANGED <<ts, pers, now, failed>>
-Handled(e) == /\ phase = "running"
+Handled(e) == /\ phase = "running" /\ Faithful(e)
               /\ \A b \in B : e.store[b] = (IF b = e.b /\ b \in pers /\ H(tid).blocks[b].sync THEN e.live[b] ELSE store[b])
               /\ store' = e.store /\ live' = e.live /\ hist' = Append(hist, Rec(e.store, ts))
               /\ UNCHANGED <<phase, ts, pers, startOk, now, failed>>
@@ -56,10 +64,6 @@ StopLine(e) ==
             /\ store' = e.store /\ ts' = e.ts
     /\ hist' = Append(hist, Rec(e.store, e.ts)) /\ live' = e.live
     /\ UNCHANGED <<pers, startOk, now, failed>>
-(* the output that corresponds to an internal state *)
-OutOf(kind, s) == CASE kind = "timer" -> (IF s.st = 2 THEN 1 ELSE 0)
-                    [] kind = "inputexp" -> (IF s.st = 2 THEN s.sd ELSE 99)
-                    [] OTHER -> s.st
 RestartLine(e) ==
     /\ e.src \in DOMAIN hist
     /\ LET snap == hist[e.src] IN
